@@ -18,6 +18,12 @@ pub enum E { A(u32), B { x: u64, y: bool }, C }
 UPD_EXT = {"Tx.add": {"params": ["u32"], "ret": "Result<u32, ()>", "updates": True}, "Tx.seal": {"params": [], "ret": "()", "updates": True},
            "Tx.len": {"params": [], "ret": "u32"}}
 
+WC_SRC = "pub struct H { pub node: Arc<Node>, pub id: ChannelId, pub pv: u32 }\n"
+WC_EXT = {"Node.with_channel": {"closure": "Channel", "params": ["ChannelId"]},
+          "Channel.revoke": {"params": ["u64"], "ret": "Result<(PublicKey, Option<SecretKey>), Status>", "updates": True},
+          "Channel.validate": {"params": ["u64"], "ret": "Result<(), Status>", "updates": True},
+          "Channel.activate": {"params": [], "ret": "Result<PublicKey, Status>", "updates": True}}
+
 CASES = [
     # ---- accepted: fragments of the generated text
     ("plus", "fn f(a: u64, b: u64) -> u64 { a + b }", ("expect", ["Rs.uadd Rs.U64_MAX a b"])),
@@ -112,7 +118,22 @@ CASES = [
                  "pure (self, t_2)"]), ("T", "d")),
     ("traitdefault-mut-res", "trait T { fn tr(&mut self, x: u32) -> Result<u32, ()>; fn e(&mut self, x: u32) -> Result<u32, ()> { let y = self.tr(x)?; Ok(y) } }",
      ("expect", ["(ext_tr : SelfT → Nat → Rs.M (SelfT × Nat))", "let (self, r_1) ← ext_tr self x", "pure (self, y)"]), ("T", "e")),
+    # (round 9) closure externals (`Node::with_channel(&id, |chan| ..)`), `return Err(e)?;`, `Box::new`, `let:` with any initialiser
+    ("withclosure", WC_SRC + "impl H { fn f(&self, n: u64) -> Result<PublicKey, Status> { if self.pv < 5 { return Err(Status::invalid_argument(format!(\"x\")))?; }\n"
+     " let (p, s) = self.node.with_channel(&self.id, |chan| { chan.validate(n)?; if n > 0 { chan.revoke(n + 1) } else { Ok((chan.activate()?, None)) } })?; Ok(p) } }",
+     ("expect", ["def H.f__with_channel_1", "(n : Nat) (chan : Channel) : Rs.M (Channel × (PublicKey × (Option SecretKey)))",
+                 "let s_1 ← ext_Channel_validate chan n", "← ext_Channel_revoke chan t_2", "none))",
+                 "(ext_Node_with_channel : {T : Type} → Node → ChannelId → (Channel → Rs.M (Channel × T)) → Rs.M T)",
+                 "Rs.fail \"Status::invalid_argument\"",
+                 "ext_Node_with_channel self.node self.id (H.f__with_channel_1 ext_Channel_validate ext_Channel_revoke ext_Channel_activate n)"]),
+     ("H", "f"), WC_EXT),
+    ("boxnew", "pub struct R { pub a: u64 }\nfn f(x: u64) -> Result<Box<R>, ()> { Ok(Box::new(R { a: x })) }", ("expect", ["pure { a := x }"])),
+    ("letany", "fn f(o: Option<Sk>) -> Option<Ds> { let r = o.map(|s| Ds(s[..].try_into().unwrap())); r }",
+     ("expect", ["(ext_let_r : (Option Sk) → (Option Ds))", "let r := (ext_let_r o)"]), (None, "f"),
+     {"let:r": {"callee": "*", "args": ["o"], "ret": "Option<Ds>"}}),
     # ---- refused (fail closed)
+    ("r-withclosure-value", WC_SRC + "impl H { fn f(&self, n: u64) -> bool { let r = self.node.with_channel(&self.id, |chan| { chan.revoke(n) }); true } }",
+     ("refuse", "used other than by `?`"), ("H", "f"), WC_EXT),
     ("r-lock-bare-opaque", "pub struct C { pub tr: Tracker, pub other: Mutex<Tracker> }\nimpl C { fn f(&self) -> u32 { self.tr.lock().unwrap().height() } }",
      ("refuse", "method .lock on ('opaque', 'Tracker')"), ("C", "f"), {"Tracker.height": {"params": [], "ret": "u32"}}),
     ("r-into-unknown", "fn f(x: Src) -> Dst { let d: Dst = x.into(); d }", ("refuse", ".into() without a known widening target")),
